@@ -1,5 +1,6 @@
 import QmcModel.Proto
 import QmcModel.Stepper
+import QmcModel.QmcCtor
 open Qmc Qmc.Proto Qmc.MockIO
 
 /-! Driver for C17: runs the model (`measureLoop`, `chunkRun`, `itimeStates`) on the inputs of
@@ -76,6 +77,44 @@ def doIsingT (T s f nrep : Nat) (βs offs : List Rat) (nss : List (List Nat)) : 
   String.intercalate " " ((List.range nrep).map fun i =>
     s!"{x.samples.length} {nanOr (if T = 0 then none else some (chunkEnergy T x i))}")
 
+/-! ### the constructor calls behind a real generic sampler (model: QmcModel/QmcCtor.lean)
+
+`<calls>` = `-` or `;`-separated `<variant>:<mat>:<vars>` with variant `new | new_off | diag | diag_off`. The model
+replays EVERY call (accepted and rejected ones, in the order issued) on a state with `nvars` variables whose offset
+starts at `base`, and renders the resulting `get_offset()` and one letter per call (`A` accepted, `E` error, `P` panic). -/
+
+def kindOf (variant : String) : Option QmcCtor.Kind :=
+  match variant with
+  | "new" => some .new
+  | "new_off" => some .newOff
+  | "diag" => some .diag
+  | "diag_off" => some .diagOff
+  | _ => none
+
+def replayCalls (nvars : Nat) (base : Rat) (calls : String) : Rat × String :=
+  let s0 : QmcCtor.State := { QmcCtor.State.init nvars with offset := base }
+  let cs := if calls == "-" then [] else calls.splitOn ";"
+  let (s, letters) := cs.foldl (fun (acc : QmcCtor.State × List Char) c =>
+    match c.splitOn ":" with
+    | [variant, mat, vars] =>
+      match kindOf variant with
+      | some k =>
+        let (r, s') := QmcCtor.make k acc.1 (parseRats mat) (parseNats vars)
+        (s', acc.2 ++ [match r with | .ok _ => 'A' | .err => 'E' | .panic => 'P'])
+      | none => (acc.1, acc.2 ++ ['?'])
+    | _ => (acc.1, acc.2 ++ ['?'])) (s0, [])
+  (s.offset, if letters.isEmpty then "-" else String.ofList letters)
+
+/-- `genericm`: the measuring loop with the documented offset as input, then `get_offset()` and the outcome of every
+constructor call reproduced from the calls -/
+def doGenericM (T f : Nat) (β off : Rat) (nseq : List Nat) (nvars : Nat) (base : Rat) (calls : String) : String :=
+  let (o, letters) := replayCalls nvars base calls
+  s!"{doIsingM T f β off nseq} {showRat o} {letters}"
+
+def doGenericT (T s f nrep : Nat) (βs offs : List Rat) (nss : List (List Nat)) (nvars : Nat) (callss : String) : String :=
+  let rs := (callss.splitOn "&").map (replayCalls nvars 0)
+  s!"{doIsingT T s f nrep βs offs nss} {showRats (rs.map (·.1))} {String.intercalate "&" (rs.map (·.2))}"
+
 def doEdgeTemper (T s f nrep : Nat) : String :=
   if chunkPanics nrep f then "panic steps=0 div0" else
   let C : Container Unit := { advance := fun _ c => (c, fun _ => 0), swapStep := id, states := fun _ => [] }
@@ -89,9 +128,11 @@ def step (toks : List String) : String :=
   | ["temper", drv, T, s, f, nrep, βs, offs, nss, script] =>
     doTemper (drv == "parallel") (parseNat T) (parseNat s) (parseNat f) (parseNat nrep) (parseRats βs) (parseRats offs)
       (parseNss nss) (parseSwapScript script)
-  | ["genericm", _variant, T, f, β, off, nseq] => doIsingM (parseNat T) (parseNat f) (parseRat β) (parseRat off) (parseNats nseq)
-  | ["generict", T, s, f, nrep, βs, offs, nss] =>
-    doIsingT (parseNat T) (parseNat s) (parseNat f) (parseNat nrep) (parseRats βs) (parseRats offs) (parseNss nss)
+  | ["genericm", _variant, T, f, β, off, nseq, nvars, base, calls] =>
+    doGenericM (parseNat T) (parseNat f) (parseRat β) (parseRat off) (parseNats nseq) (parseNat nvars) (parseRat base) calls
+  | ["generict", T, s, f, nrep, βs, offs, nss, nvars, callss] =>
+    doGenericT (parseNat T) (parseNat s) (parseNat f) (parseNat nrep) (parseRats βs) (parseRats offs) (parseNss nss)
+      (parseNat nvars) callss
   | ["isingm", T, f, β, off, nseq] => doIsingM (parseNat T) (parseNat f) (parseRat β) (parseRat off) (parseNats nseq)
   | ["isingt", T, s, f, nrep, βs, offs, nss] =>
     doIsingT (parseNat T) (parseNat s) (parseNat f) (parseNat nrep) (parseRats βs) (parseRats offs) (parseNss nss)
